@@ -70,13 +70,15 @@ def generate(seed, tier):
         if len(eqs) < n_eq and (not eqs or r < 0.25):
             eid = 'e%d' % len(eqs)
             kind = rng.choice(['none', 'list', 'str', 'sector', 'sector', 'lhs_eq'])
+            # the left-hand side string may carry a trailing comment (it becomes the description)
+            cm = rng.choice(['', '', '', ' # total of the flows', '  # [x] note'])
             if kind == 'none':
                 ops.append({'op': 'new', 'id': eid, 'lhs': 'Q%d' % len(eqs), 'rhs_kind': 'none'})
             elif kind == 'list':
-                ops.append({'op': 'new', 'id': eid, 'lhs': 'Q%d' % len(eqs), 'rhs_kind': 'list',
+                ops.append({'op': 'new', 'id': eid, 'lhs': 'Q%d' % len(eqs) + cm, 'rhs_kind': 'list',
                             'rhs': [spell(rng, atom(rng)) for _ in range(rng.randint(0, 3))]})
             elif kind == 'str':
-                ops.append({'op': 'new', 'id': eid, 'lhs': 'Q%d' % len(eqs), 'rhs_kind': 'str',
+                ops.append({'op': 'new', 'id': eid, 'lhs': 'Q%d' % len(eqs) + cm, 'rhs_kind': 'str',
                             'rhs': rng.choice(LEADING)})
             elif kind == 'lhs_eq':
                 ops.append({'op': 'new', 'id': eid, 'lhs': 'Q%d = %s' % (len(eqs), rng.choice([l for l in LEADING if l])),
